@@ -155,6 +155,38 @@ func (c *Ctx) statParams() (docs, freq int, site ssa.CallInstruction) {
 			}
 		}
 	}
+	// the records may be written by a helper persistFields is split into, which is handed the
+	// two maps unchanged: lookups in the helper's map parameters stand for the ones they are bound to
+	if len(cands) == 0 {
+		for _, b := range pf.Blocks {
+			for _, ins := range b.Instrs {
+				call, ok := ins.(*ssa.Call)
+				if !ok {
+					continue
+				}
+				h := call.Call.StaticCallee()
+				if h == nil || !c.inRoot(h) || h.Blocks == nil || h == wu {
+					continue
+				}
+				for ai, a := range call.Call.Args {
+					pp, ok := a.(*ssa.Parameter)
+					if !ok || pp.Parent() != pf || ai >= len(h.Params) || pp.Type().String() != "map[uint16]uint64" {
+						continue
+					}
+					hp := h.Params[ai]
+					for _, hb := range h.Blocks {
+						for _, hi := range hb.Instrs {
+							if lk, ok := hi.(*ssa.Lookup); ok && lk.X == ssa.Value(hp) {
+								for _, d := range flow(h, lk, 0) {
+									cands = append(cands, cand{paramIndex(pp), d})
+								}
+							}
+						}
+					}
+				}
+			}
+		}
+	}
 	// the statistics record: one writeUvarints call with exactly two values,
 	// both lookups in (different) map parameters
 	for _, a := range cands {
